@@ -530,6 +530,24 @@ class ExprCanon(ast.NodeTransformer):
         # tuple([a, b]) / tuple((a, b)) is (a, b)
         if isinstance(f0, ast.Name) and f0.id == "tuple" and len(node.args) == 1 and not node.keywords and isinstance(node.args[0], (ast.List, ast.Tuple)) and not any(isinstance(x, ast.Starred) for x in node.args[0].elts):
             return _loc(ast.Tuple(elts=list(node.args[0].elts), ctx=ast.Load()), node)
+        # format(x) is f'{x}';  'sep'.join((a, b)) over a display of string-typed pieces is the f-string of them
+        if isinstance(f0, ast.Name) and f0.id == "format" and len(node.args) == 1 and not node.keywords and not isinstance(node.args[0], ast.Starred):
+            return _loc(ast.JoinedStr(values=[_loc(ast.FormattedValue(value=node.args[0], conversion=-1, format_spec=None), node)]), node)
+        if isinstance(f0, ast.Attribute) and f0.attr == "join" and isinstance(f0.value, ast.Constant) and isinstance(f0.value.value, str) and len(node.args) == 1 and not node.keywords and isinstance(node.args[0], (ast.Tuple, ast.List)) and node.args[0].elts and all(isinstance(x, ast.JoinedStr) or (isinstance(x, ast.Constant) and isinstance(x.value, str)) or (isinstance(x, ast.Call) and isinstance(x.func, ast.Name) and x.func.id == "str" and len(x.args) == 1 and not x.keywords) for x in node.args[0].elts):
+            vals = []
+            for i_, x in enumerate(node.args[0].elts):
+                if i_ and f0.value.value:
+                    vals.append(_loc(ast.Constant(value=f0.value.value), node))
+                if isinstance(x, ast.JoinedStr):
+                    vals.extend(x.values)
+                elif isinstance(x, ast.Constant):
+                    vals.append(x)
+                else:
+                    vals.append(_loc(ast.FormattedValue(value=x.args[0], conversion=ord("s"), format_spec=None), x))
+            return self.visit(_loc(ast.JoinedStr(values=vals), node))
+        # getattr(x, 'name') with a literal identifier is x.name
+        if isinstance(f0, ast.Name) and f0.id == "getattr" and len(node.args) == 2 and not node.keywords and isinstance(node.args[1], ast.Constant) and isinstance(node.args[1].value, str) and node.args[1].value.isidentifier() and not node.args[1].value.startswith("__"):
+            return _loc(ast.Attribute(value=node.args[0], attr=node.args[1].value, ctx=ast.Load()), node)
         # typing.cast(T, e) is e
         if len(node.args) == 2 and not node.keywords and ((isinstance(f0, ast.Name) and f0.id in _CAST_NAMES[0]) or (isinstance(f0, ast.Attribute) and f0.attr == "cast" and isinstance(f0.value, ast.Name) and f0.value.id in _CAST_NAMES[1])):
             return node.args[1]
